@@ -3,12 +3,55 @@ import Girc.Spec.Grammar
 import Girc.Proofs.Tags
 import Girc.Proofs.Utf8
 import Girc.Proofs.ParseRender
+import Girc.Proofs.RoundtripLemmas
+import Girc.Proofs.RoundtripLine
 namespace Girc.Proofs.Roundtrip
 open Girc Girc.Model Girc.Spec
+open Girc.Proofs.ParseLemmas Girc.Proofs.ParseParams Girc.Proofs.ParseSections
+open Girc.Proofs.ParseRender Girc.Proofs.RoundtripLemmas
 
 theorem roundtrip_event (e : Event) (h : WFEvent e = true) :
     ∃ e', parseEvent (eventBytes e) = some e' ∧ EventEquiv e' e := by
-  sorry
+  simp only [WFEvent, Bool.and_eq_true, decide_eq_true_eq] at h
+  obtain ⟨⟨⟨⟨hcmd, hparams⟩, hsrc⟩, htags⟩, hlen⟩ := h
+  have htags' : ∀ m, e.tags = some m → wfTags m = true := by
+    intro m hm; rw [hm] at htags; simpa using htags
+  have hsrc' : ∀ s, e.source = some s → wfSource s = true := by
+    intro s hs; rw [hs] at hsrc; simpa using hsrc
+  obtain ⟨hcmdOK, hcmdClean, hupper⟩ := wfCmd_ok e.command hcmd
+  obtain ⟨hPsp, hPclean, hPparse⟩ := wfParams_ok e.params hparams
+  have htagSec := tagSecE_ok e.tags htags'
+  have hsrcSec : ∀ s, e.source.map sourceBytes = some s → s ≠ [] ∧ SP ∉ s ∧ Clean s := by
+    intro s hs
+    cases hsrc0 : e.source with
+    | none => simp [hsrc0] at hs
+    | some src =>
+      simp only [hsrc0, Option.map_some, Option.some.injEq] at hs
+      subst hs
+      obtain ⟨a, b, c, _⟩ := wfSource_ok src (hsrc' src hsrc0)
+      exact ⟨a, b, c⟩
+  have hshape := rawBytes_shape e htags'
+  have hclean : Clean (rawBytes e) := by
+    rw [hshape]
+    exact (secPart_clean AT (by decide) (by decide) _ (fun s hs => (htagSec s hs).2.2)).append
+      ((secPart_clean COLON (by decide) (by decide) _ (fun s hs => (hsrcSec s hs).2.2)).append
+        (hcmdClean.append hPclean))
+  have heb : eventBytes e = rawBytes e := hclean.eventBytes_eq
+  have htrim : trimCRLF (eventBytes e) = secPart AT (tagSecE e.tags) ++
+      (secPart COLON (e.source.map sourceBytes) ++ (e.command ++ paramsBytes e.params)) := by
+    rw [heb, trimCRLF_id _ hclean.2, hshape]
+  have hlen' : 2 ≤ (trimCRLF (eventBytes e)).length := by
+    rw [heb, trimCRLF_id _ hclean.2]; exact hlen
+  refine ⟨_, parseEvent_sections _ _ _ _ _ htrim hlen'
+    (fun s hs => ⟨(htagSec s hs).1, (htagSec s hs).2.1⟩)
+    (fun s hs => ⟨(hsrcSec s hs).1, (hsrcSec s hs).2.1⟩)
+    hcmdOK.ne hcmdOK.sp hcmdOK.at_ hcmdOK.col hPsp, ?_⟩
+  refine ⟨hupper, hPparse, ?_, tagSecE_parse e.tags htags'⟩
+  cases hsrc0 : e.source with
+  | none => rfl
+  | some src =>
+    simp only [Option.map_some, Option.some.injEq]
+    exact (wfSource_ok src (hsrc' src hsrc0)).2.2.2
 
 /-- Fields of a grammatical line are valid UTF-8 (C01's quantifier) and its tag section fits. -/
 def lineClean (l : Line) : Bool :=
@@ -18,6 +61,14 @@ def lineClean (l : Line) : Bool :=
 
 theorem roundtrip_line (l : Line) (h : wfLine l = true) (hc : lineClean l = true) :
     ∃ e₁ e₂, parseEvent (render l) = some e₁ ∧ parseEvent (eventBytes e₁) = some e₂ ∧ EventEquiv e₂ e₁ := by
-  sorry
+  simp only [lineClean, Bool.and_eq_true] at hc
+  have hlen : ∀ ts, l.tags = some ts → (tagsBytesFull (meaningTags ts)).length ≤ maxTagLength := by
+    intro ts hts
+    have := hc.2
+    rw [hts] at this
+    simpa using this
+  have hwf : WFEvent (meaning l) = true := RoundtripLine.wfEvent_meaning l h hc.1 hlen
+  obtain ⟨e₂, hp, heq⟩ := roundtrip_event (meaning l) hwf
+  exact ⟨meaning l, e₂, ParseRender.parse_render l h, hp, heq⟩
 
 end Girc.Proofs.Roundtrip
